@@ -86,3 +86,12 @@ def run(ctx, rule="CONTROL"):
     got = {o["key"]: o["ok"] for o in sc.obligations}
     ctx.ob(rule, "minmax-kind", got.get("control_intersection|out->left@0") is False and got.get("control_intersection|out->right@1") is True, FIXTURE,
            "left end as TSK_MIN reported, right end as TSK_MIN accepted: %s" % got)
+    # Python slip lints on their own fixture
+    from .pyfront import PyMod
+    from rules import lib_kind3
+    fx = os.path.join(os.path.dirname(FIXTURE), "controls_py.py")
+    pm = PyMod("controls_py", fx)
+    got = {qn: [k for k, _, _ in lib_kind3.py_function_lints(pm, qn, fn)] for qn, fn in pm.funcs.items()}
+    want = {"late_binding": ["late-binding"], "early_binding": [], "mutable_default": ["mutable-default"], "swallowed": ["swallowed-exception"],
+            "iterator_reuse": ["iterator-reuse"], "iterator_once": []}
+    ctx.ob(rule, "py-slips", got == want, fx, "python slip lints on the fixture: %s" % got)
